@@ -103,7 +103,26 @@ func logClose(err error, pw *io.PipeWriter) {
 	}
 }
 
-func (r *request) buildHTTP(mediaType, basePath string, producers map[string]runtime.Producer, registry strfmt.Registry, auth runtime.ClientAuthInfoWriter) (*http.Request, error) { //nolint:gocyclo,maintidx
+func (r *request) buildHTTP(mediaType, basePath string, producers map[string]runtime.Producer, registry strfmt.Registry, auth runtime.ClientAuthInfoWriter) (req *http.Request, err error) { //nolint:gocyclo,maintidx
+	var pr *io.PipeReader
+	defer func() {
+		if err == nil {
+			return
+		}
+		// The request will never be sent, so nothing is going to consume its body:
+		// release the files handed over for upload.
+		if pr != nil {
+			// unblocks the multipart writer goroutine, which closes the files
+			_ = pr.CloseWithError(err)
+			return
+		}
+		for _, ff := range r.fileFields {
+			for _, ffi := range ff {
+				ffi.Close()
+			}
+		}
+	}()
+
 	// build the data
 	if err := r.writer.WriteToRequest(r, registry); err != nil {
 		return nil, err
@@ -114,7 +133,6 @@ func (r *request) buildHTTP(mediaType, basePath string, producers map[string]run
 	// bytes.Buffer then it will wrap it in an io.ReadCloser
 	// and set the content length automatically.
 	var body io.Reader
-	var pr *io.PipeReader
 	var pw *io.PipeWriter
 
 	r.buf = bytes.NewBuffer(nil)
@@ -326,7 +344,7 @@ DoneChoosingBodySource:
 		urlPath += "/"
 	}
 
-	req, err := http.NewRequestWithContext(context.Background(), r.method, urlPath, body)
+	req, err = http.NewRequestWithContext(context.Background(), r.method, urlPath, body)
 	if err != nil {
 		return nil, err
 	}
